@@ -63,8 +63,9 @@ def output_xml_report(tex, plain, charmap, matches, byte_offset, file, out):
         cont_length = json_get(cont, 'length', int)
         if byte_offset:
             cont_length = len(cont_text[cont_offset:cont_offset+cont_length]
-                                    .encode())
-            cont_offset = len(cont_text[:cont_offset].encode())
+                                    .encode(errors='replace'))
+            cont_offset = len(cont_text[:cont_offset]
+                                    .encode(errors='replace'))
 
         xml = {
             'fromy': str(fromy), 'fromx': str(fromx),
